@@ -31,9 +31,9 @@ Proof. exact ignore_unrelated. Qed.
 Print Assumptions C11_ignore_unrelated.
 
 (* other analyses are untouched by a filter on one of them *)
-Theorem C11_others_untouched : forall V filt_str as_path line_of (l : list (analysis V)) es i a coverage,
-  nth_error l i = Some a -> (coverage = false \/ all_ok V as_path es) ->
-  own V i (dels (run_events V filt_str as_path line_of l es (init_state V coverage)))
-  = map (set_idx V i) (dels (run_events V filt_str as_path line_of [a] es (init_state V coverage))).
+Theorem C11_others_untouched : forall V filt_str as_path is_iid line_of (l : list (analysis V)) es i a coverage,
+  nth_error l i = Some a ->
+  own V i (dels (run_events V filt_str as_path is_iid line_of l es (init_state V coverage)))
+  = map (set_idx V i) (dels (run_events V filt_str as_path is_iid line_of [a] es (init_state V coverage))).
 Proof. exact isolation. Qed.
 Print Assumptions C11_others_untouched.
